@@ -147,12 +147,11 @@ Lemma checks_agree sv x L s old new :
                  && negb (mem_bytes (fst kg) (sx_new_named x))
                  && (snd kg old =? snd kg new))) named_level_keys = true ->
   same_keys (map fst (pl_events old)) (map fst (pl_events new)) = true ->
-  mem_bytes tpi_type (map fst (pl_events old) ++ map fst (pl_events new)) = false ->
   same_keys (map fst (pl_notifs old)) (map fst (pl_notifs new)) = true ->
   same_keys (map fst (pl_users old)) (map fst (pl_users new)) = true ->
   literal_level_checks sv x L s old new = effective_level_checks sv L s old new.
 Proof.
-  intros Hn He Ht Hno Hu. unfold literal_level_checks, effective_level_checks.
+  intros Hn He Hno Hu. unfold literal_level_checks, effective_level_checks.
   f_equal; [f_equal; [f_equal|]|].
   - (* named keys *)
     rewrite forallb_forall in Hn. unfold named_level_keys in *. simpl.
@@ -163,7 +162,7 @@ Proof.
     apply forallb_ext_in_c. intros ty Hin.
     destruct (same_keys_both _ _ _ He Hin) as [Ho Hnw].
     destruct (in_keys_lookup _ _ Ho) as [ov Eo]. destruct (in_keys_lookup _ _ Hnw) as [nv En].
-    unfold pl_event_level. rewrite (mem_bytes_false_neq ty _ tpi_type Ht Hin), Eo, En. reflexivity.
+    unfold pl_event_entry. rewrite Eo, En. reflexivity.
   - (* notifications *)
     f_equal. apply forallb_ext_in_c. intros n Hin.
     destruct (same_keys_both _ _ _ Hno Hin) as [Ho Hnw].
@@ -240,8 +239,7 @@ Section OneSwitch.
       with (spec_level_with (mk_dep b1 b2 true true true b6 b7 b8 b9 b10 b11 b12 b13) sv a c x (ai_sender a)).
     cbv beta iota zeta in H. cbn [andb] in H. apply Bool.negb_false_iff in H.
     apply andb_true_iff in H as [H H0]. apply andb_true_iff in H as [H H1].
-    apply andb_true_iff in H as [H H2]. apply andb_true_iff in H as [H H3].
-    apply Bool.negb_true_iff in H2.
+    apply andb_true_iff in H as [H H3].
     rewrite (checks_agree sv x _ (ai_sender a) (ai_pl a) new); auto.
   Qed.
 
